@@ -299,10 +299,10 @@ pub fn decimal(number_value: &Value, scale_value: &Value) -> Value {
         value_null!("[core::decimal] scale is out of range: {}", scale)
       }
     } else {
-      value_null!("[core::decimal] scale value is not a number: {}", scale_value)
+      value_null!("[core::decimal] scale value is not a number: {}", operand_text(scale_value))
     }
   } else {
-    value_null!("[core::decimal] number value is not a number: {}", number_value)
+    value_null!("[core::decimal] number value is not a number: {}", operand_text(number_value))
   }
 }
 
